@@ -965,6 +965,20 @@ func (m *Machine) refusal(t *rapid.T) {
 				}
 			}
 		}
+		if rapid.IntRange(0, 2).Draw(t, "nanShadowed") == 0 {
+			// the batch also carries a newer, harmless point of the NaN point's
+			// identity: in-batch de-duplication would drop the NaN one, the batch is
+			// refused all the same
+			later := pts[pos]
+			later.Value = 1
+			later.Time = time.Unix(0, m.tick())
+			if later.Time.Before(pts[pos].Time) {
+				later.Time = pts[pos].Time.Add(time.Nanosecond)
+			}
+			at := rapid.IntRange(0, len(pts)).Draw(t, "shadowAt")
+			pts = append(pts[:at], append(data.Points{later}, pts[at:]...)...)
+			m.Flags["nanShadowedInBatch"] = true
+		}
 		if len(pts) > 1 && pos > 0 && pos < len(pts)-1 {
 			m.Flags["nanInMiddle"] = true
 		}
